@@ -1562,15 +1562,15 @@ def sub_2qutrit(ctx):
     #   hnames  name -> Hamiltonian against the Coq table (0.2 ms per name): ALL 39k names in the thorough tier, a seeded 3000 in the quick tier
     #   names   the dispatchers (level 0 unitary_mat + hamiltonian_mat, 1 + Gate object, 2 all seven object forms):
     #           quick: 12 + 24 sampled names at level 1, every 16th at level 2;
-    #           thorough: all 198 single-base-matrix names at level 1 and every 8th two-base-matrix name (every 32nd level 1, every 128th level 2)
+    #           thorough: all 198 single-base-matrix names at level 1 and every 16th two-base-matrix name (every 64th level 1, every 256th level 2)
     if ctx.quick:
         names = ctx.rng.sample(singles, min(len(singles), 12)) + ctx.rng.sample(doubles, min(len(doubles), 24))
         level = {n: (2 if i % 16 == 0 else 1) for i, n in enumerate(names)}
         hnames = sorted(set(singles) | set(ctx.rng.sample(doubles, min(len(doubles), 3000))))
     else:
-        names = list(singles) + list(doubles[::8])
+        names = list(singles) + list(doubles[::16])
         level = {n: 1 for n in singles}
-        level.update({n: (2 if i % 16 == 0 else 1 if i % 4 == 0 else 0) for i, n in enumerate(doubles[::8])})
+        level.update({n: (2 if i % 16 == 0 else 1 if i % 4 == 0 else 0) for i, n in enumerate(doubles[::16])})
         hnames = list(allnames)
         # quara tabulates B_a (x) conj(B_b) on the first physicality verdict of a composite system (7 s at d = 9):
         # do it once here, the forked workers inherit the cache
